@@ -203,6 +203,10 @@ def cases(shard, nshards, seed, tier):
     for i in range(4 if tier == "quick" else 40):
         if mine():
             yield {"family": "crowded", "i": i}
+    # one residue only (its own atoms clash once the structure is scaled down), and one nucleotide among amino acids
+    for j, fn in enumerate(small[:6] if tier == "quick" else small):
+        if mine():
+            yield {"family": "single-residue", "file": fn, "ops": [{"op": "first-n", "n": 1}, {"op": "scale", "f": 0.75}]}
     ncli = 12 if tier == "quick" else 150
     for i in range(ncli):
         if mine():
@@ -366,9 +370,14 @@ def run_cli(rec, seed, i, raw=None):
     flags = [f for f in ["--ignore-occupancy", "--nucleic-acid-only", "--ignore-autoclashes", "--require-same-atom-name", "--enable-molprobity-mode"] if rng.random() < 0.4]
     # what the file says about the experiment: both categories (X-ray entries), the method only (NMR entries have no
     # refinement data), nothing (fragments, models), or a PDB file, which has no categories at all
-    kind = ["both", "both", "method-only", "none", "pdb"][(i // 5) % 5]
+    kind = ["both", "pdb", "method-only", "none", "pdb"][(i // 3) % 5]
     rec.count("note:cli-metadata-" + kind)
     if kind == "pdb" and emit.fits_pdb(rows) and all((r["chain"] or "").strip() for r in rows):
+        # as in large entries: serials beyond 9999 (HETATM10001 ...), modified residues and ligands as HETATM
+        for k_, r in enumerate(rows):
+            r["serial"] = 9990 + k_
+            if r["resname"] not in ("A", "C", "G", "U", "DA", "DC", "DG", "DT") or k_ % 7 == 3:
+                r["rec"] = "HETATM"
         return _run_cli_text(rec, fn, emit.emit_pdb(rows), flags, i, ".pdb", metadata=("", ""), rows=rows)
     cats = {"both": extra, "method-only": extra[:1]}.get(kind, [])
     # occupancies in every spelling the mmCIF number grammar allows (0.50, +0.50, 5.0E-01, .50)
@@ -428,7 +437,18 @@ def _run_cli_text(rec, fn, text, flags, i, suffix, metadata, rows=None):
                 read = parser.read_3d_structure(fh, 1)
             twin = work3d.structure_from_rows(rows, read)
             if sum(len(r.atoms) for r in twin.residues) != sum(len(r.atoms) for r in read.residues):
-                rec.undecided("cli.list-is-the-list-for-the-written-atoms", "the reader kept another number of atoms")
+                # the reader may drop one of two atoms closer than 0.5 A - and nothing else
+                X = np.array([[r["x"], r["y"], r["z"]] for r in rows])
+                dmin = 9.0
+                for a0 in range(0, len(X), 500):
+                    D = np.sqrt(((X[a0 : a0 + 500, None, :] - X[None, :, :]) ** 2).sum(-1))
+                    D[np.arange(min(500, len(X) - a0)), np.arange(a0, min(a0 + 500, len(X)))] = 9.0
+                    dmin = min(dmin, float(D.min()))
+                if dmin > 0.5 + 1e-6:
+                    rec.violation("cli.list-is-the-list-for-the-written-atoms", det({"atoms-written": len(rows), "atoms-the-tool-worked-on": sum(len(r.atoms) for r in read.residues),
+                                                                                     "closest-pair-written": round(dmin, 3)}), mechanism="reader-lost-atoms")
+                else:
+                    rec.undecided("cli.list-is-the-list-for-the-written-atoms", "the reader kept another number of atoms (pairs closer than 0.5 A exist)")
             else:
                 kw = key(orig(twin.residues, *[f in flags for f in ("--ignore-occupancy", "--ignore-autoclashes", "--nucleic-acid-only", "--require-same-atom-name", "--enable-molprobity-mode")]))
                 rec.check("cli.list-is-the-list-for-the-written-atoms", kw == kc, lambda: det({"tool": len(kc), "written-atoms": len(kw), "only-written": [x for x in kw if x not in set(kc)][:3], "only-tool": [x for x in kc if x not in set(kw)][:3]}))
